@@ -3,6 +3,7 @@
 package main
 
 import (
+	"bytes"
 	"flag"
 	"fmt"
 	"math/rand"
@@ -171,17 +172,33 @@ func (d *arpDriver) step(a action) (rec map[string]interface{}) {
 // Two ordinary trace lines result: first (with the frame as it finally left) and second.
 func (d *arpDriver) overlap(first, second action) []map[string]interface{} {
 	c := d.c
+	// the goroutine that will write the first action's frame: the loop's for a loop action, else a goroutine of its own
+	var la *lp
+	if first.s("a") == "act" {
+		la = c.local(first.i("l"))
+	}
 	c.mu.Lock()
 	c.holdArmed, c.holding, c.holdRelease = true, false, make(chan struct{})
 	rel := c.holdRelease
+	start := len(c.events)
 	c.mu.Unlock()
 	var recA map[string]interface{}
+	var gorA uint64
+	if la != nil {
+		gorA = la.gor
+	}
 	doneA := make(chan struct{})
+	ready := make(chan struct{})
 	go func() {
 		defer close(doneA)
+		if la == nil {
+			gorA = goid()
+		}
+		close(ready)
 		recA = d.perform(first)
 	}()
-	holding := c.waitFor(time.Second, func() bool { return c.holding })
+	<-ready
+	holding := c.waitFor(stepWait, func() bool { return c.holding })
 	var recB map[string]interface{}
 	if holding {
 		recB = d.perform(second)
@@ -189,31 +206,46 @@ func (d *arpDriver) overlap(first, second action) []map[string]interface{} {
 	c.mu.Lock()
 	c.holdArmed = false
 	c.mu.Unlock()
-	e0 := c.nEvents()
 	close(rel)
 	<-doneA
-	if holding { // the held write completes now: wait until its frame is in the log
-		c.waitFor(time.Second, func() bool {
-			for _, e := range c.events[e0:] {
-				if e.kind == "frame" && e.b3 {
+	// quiescence of the first sender: a received packet is done when ProcessPacket has returned; a loop action is
+	// done when the loop has written its frame or has ended
+	if la != nil {
+		c.waitFor(stepWait, func() bool {
+			if la.pos == "done" {
+				return true
+			}
+			for _, e := range c.events[start:] {
+				if e.kind == "frame" && e.gor == gorA {
 					return true
 				}
 			}
 			return false
 		})
-		time.Sleep(200 * time.Microsecond)
+		if ed, _ := recA["done"].(bool); !ed { // the loop may end right after a restoring frame
+			w := 2 * time.Millisecond
+			if c.wroteRestore(start, gorA) {
+				w = stepWait
+			}
+			c.waitFor(w, func() bool { return la.pos == "done" })
+			c.mu.Lock()
+			if la.pos == "done" {
+				recA["done"] = true
+			}
+			c.mu.Unlock()
+		}
 	}
-	if !holding { // the first action wrote nothing: plain sequence
+	if !holding { // the first action wrote nothing (or too late to be held): plain sequence
 		recB = d.perform(second)
 	}
-	// attribute the frames: the held write belongs to the first action, everything else to the second
+	// fixed attribution: the frames written by the first sender's goroutine belong to the first action, all others to the second
 	c.mu.Lock()
 	var fa, fb []vh.ArpFrame
 	var raw [][]byte
 	for _, e := range c.events[d.mark:] {
 		if e.kind == "frame" && e.epoch == c.epoch {
 			raw = append(raw, e.frame)
-			if e.b3 {
+			if e.gor == gorA {
 				fa = append(fa, d.u.DecodeARP(e.frame))
 			} else {
 				fb = append(fb, d.u.DecodeARP(e.frame))
@@ -229,6 +261,7 @@ func (d *arpDriver) overlap(first, second action) []map[string]interface{} {
 			fa = []vh.ArpFrame{}
 		}
 		recA["frames"] = fa
+		recA["held"] = holding
 		sec := map[string]interface{}{}
 		for k, v := range second {
 			sec[k] = v
@@ -374,6 +407,9 @@ func (d *arpDriver) perform(a action) (rec map[string]interface{}) {
 		wait := 500 * time.Microsecond
 		if expectDone {
 			wait = 200 * time.Millisecond
+			if c.wroteRestore(e0, l.gor) { // a loop that has sent its corrective request returns next: wait for it
+				wait = stepWait
+			}
 		}
 		done := c.waitFor(wait, func() bool { return l.pos == "done" })
 		if !done {
@@ -413,6 +449,19 @@ func (d *arpDriver) perform(a action) (rec map[string]interface{}) {
 		panic("unknown action " + a.s("a"))
 	}
 	return rec
+}
+
+// wroteRestore reports whether goroutine g has written (since event index from) an ARP frame whose sender
+// hardware address is not ours, i.e. the corrective request a loop sends just before it returns.
+func (c *ctl) wroteRestore(from int, g uint64) bool {
+	c.mu.Lock()
+	defer c.mu.Unlock()
+	for _, e := range c.events[from:] {
+		if e.kind == "frame" && e.gor == g && len(e.frame) >= 42 && !bytes.Equal(e.frame[22:28], vh.OwnMAC) {
+			return true
+		}
+	}
+	return false
 }
 
 func (c *ctl) framesAfter(from int) int {
